@@ -25,8 +25,9 @@ from .. import ser
 logging.getLogger("concurrent.futures").setLevel(logging.CRITICAL)
 
 PROP = "C15"
-THEOREMS = ["C15_deprecated_filter", "C15_order", "C15_sorted", "C15_exact_partial",
-            "C15_defaults_refuted", "C15_typename", "C15_disabled"]
+THEOREMS = ["C15_deprecated_filter", "C15_order", "C15_sorted", "C15_exact_partial", "C15_guard_decidable",
+            "C15_defaults_refuted", "C15_wrapper_depth_refuted", "C15_typename", "C15_disabled",
+            "C15_typename_exec"]
 AXIOMS_OK = []
 RUN_MODULE = "Run.C15run Schema.IntrospectModel Spec.IntrospectSpec"
 AGREE = "agree_C15"
@@ -54,6 +55,7 @@ FINDINGS = {
     "input": "input-object-typed-default",
     "string": "string-default-needing-escapes",
     "astral": "astral-string-in-list-default",
+    "deep": "type-ref-deeper-than-7-wrappers",
 }
 
 
@@ -305,10 +307,12 @@ def _reparse_class(iv):
     return None
 
 
-def _reparse(schema, intro_data):
+def _reparse(schema, intro_data, guard=None):
     """every reported defaultValue must parse (parse_value) and coerce
-    (value_from_ast) back to the declared default"""
+    (value_from_ast) back to the declared default; [guard] collects
+    [type ref, declared default, parsed back?] for every declared default"""
     out = []
+    guard = [] if guard is None else guard
     types = {t["name"]: t for t in intro_data["__schema"]["types"]}
     dirs = {d["name"]: d for d in intro_data["__schema"]["directives"]}
 
@@ -332,6 +336,7 @@ def _reparse(schema, intro_data):
             problem = None if ok else "parses-to-a-different-value"
         except Exception as e:  # noqa
             ok, problem = False, "does-not-parse-back: " + type(e).__name__
+        guard.append([G.dump_ref(iv.type), G._jsonable(iv.default_value), bool(ok)])
         if not ok:
             out.append({"where": where, "problem": problem, "text": text,
                         "declared": G._jsonable(iv.default_value), "finding": _reparse_class(iv)})
@@ -352,6 +357,52 @@ def _reparse(schema, intro_data):
     for name, d in schema.directives.items():
         for a in d.arguments:
             check("@%s(%s:)" % (name, a.name), a, dirs.get(name, {}).get("args", []))
+    return out
+
+
+def _decode_ref(d):
+    """read a TypeRef answer back; None when the chain is cut off"""
+    if not isinstance(d, dict):
+        return None
+    if d.get("kind") in ("LIST", "NON_NULL"):
+        inner = _decode_ref(d.get("ofType")) if "ofType" in d else None
+        return None if inner is None else ["L" if d["kind"] == "LIST" else "NN", inner]
+    return ["N", d.get("name")] if isinstance(d.get("name"), str) else None
+
+
+def _depth(t):
+    return 0 if t[0] == "N" else 1 + _depth(t[1])
+
+
+def _typerefs(dump, data):
+    """every reported type reference must read back as the declared one"""
+    out = []
+    rtypes = {t["name"]: t for t in data["__schema"]["types"]}
+    rdirs = {d["name"]: d for d in data["__schema"]["directives"]}
+
+    def check(where, declared, reported):
+        if reported is None or _decode_ref(reported.get("type")) != declared:
+            out.append({"where": where, "declared": declared,
+                        "finding": FINDINGS["deep"] if _depth(declared) > 7 else None})
+
+    def by_name(l):
+        return {x["name"]: x for x in (l or [])}
+
+    for t in dump["types"]:
+        rt = rtypes.get(t["name"], {})
+        rf = by_name(rt.get("fields"))
+        for f in t.get("fields", []):
+            check("%s.%s" % (t["name"], f["name"]), f["type"], rf.get(f["name"]))
+            ra = by_name(rf.get(f["name"], {}).get("args"))
+            for a in f["args"]:
+                check("%s.%s(%s:)" % (t["name"], f["name"], a["name"]), a["type"], ra.get(a["name"]))
+        ri = by_name(rt.get("inputFields"))
+        for iv in t.get("inputs", []):
+            check("%s.%s" % (t["name"], iv["name"]), iv["type"], ri.get(iv["name"]))
+    for d in dump["directives"]:
+        ra = by_name(rdirs.get(d["name"], {}).get("args"))
+        for a in d["args"]:
+            check("@%s(%s:)" % (d["name"], a["name"]), a["type"], ra.get(a["name"]))
     return out
 
 
@@ -436,11 +487,13 @@ def run_impl(case):
         for (name, _e, _r), r in zip(CONFIGS[1:], per[1:]):
             if json.dumps(r, default=str) != json.dumps(per[0], default=str):
                 diffs.append({"op": i, "config": name, "result": json.loads(json.dumps(r, default=str))})
-    obs = {"dump": dump, "results": results, "runtime_diffs": diffs, "reparse": [], "parses": []}
+    obs = {"dump": dump, "results": results, "runtime_diffs": diffs, "reparse": [], "parses": [],
+           "typerefs": [], "guard": []}
     first = results[0] if case["ops"] and case["ops"][0] == {"op": "intro", "incl": True, "desc": True} else None
     if first is not None and "data" in first and "errors" not in first:
-        obs["reparse"] = _reparse(schema, first["data"])
+        obs["reparse"] = _reparse(schema, first["data"], obs["guard"])
         obs["parses"] = _parses(first["data"])
+        obs["typerefs"] = _typerefs(dump, first["data"])
     return obs
 
 
@@ -467,6 +520,7 @@ def _obs_term(op, r):
 def to_coq(case, obs):
     terms = [_obs_term(op, r) for op, r in zip(case["ops"], obs["results"])]
     terms += ["(OParse %s %s)" % (ser.cstr(text), ser.copt(j, _clit)) for text, j in obs.get("parses", [])]
+    terms += ["(OGuard %s %s %s)" % (G.cref(t), ser.cpv(v), ser.cbool(ok)) for t, v, ok in obs.get("guard", [])]
     return "(%s, %s)" % (G.cschema(obs["dump"]), ser.clist(terms, lambda x: x))
 
 
@@ -499,6 +553,8 @@ def direct_checks(case, obs):
         out.append(("runtime-independent: op %d differs under %s" % (d["op"], d["config"]), None))
     for r in obs["reparse"]:
         out.append(("default-value-parses-back: %s %s" % (r["where"], r["problem"]), r["finding"]))
+    for r in obs.get("typerefs", []):
+        out.append(("type-reference-reads-back: %s" % r["where"], r["finding"]))
     return out
 
 
@@ -610,6 +666,9 @@ def extra_evidence(cases, obss):
         "build_modes": modes, "operations": ops, "user_type_kinds": kinds, "defaults_by_class": defaults,
         "deprecated": deprecated, "type_refs_deeper_than_7": deep,
         "reparse_failures_by_finding": _count([r["finding"] for o in obss for r in o["reparse"]]),
+        "declared_defaults_checked_against_guard": sum(len(o.get("guard", [])) for o in obss),
+        "declared_defaults_parsed_back": sum(1 for o in obss for g in o.get("guard", []) if g[2]),
+        "type_refs_not_read_back_by_finding": _count([r["finding"] for o in obss for r in o.get("typerefs", [])]),
         "default_texts_parsed_by_both_readers": sum(len(o.get("parses", [])) for o in obss),
         "default_texts_rejected_by_parse_value": sum(1 for o in obss for p in o.get("parses", []) if p[1] is None),
         "runtime_configs": [c[0] for c in CONFIGS],
